@@ -109,6 +109,7 @@ def minimise(engine, plan, res, cap=300):
             budget -= 1
             try:
                 journal(cand, replay=True)
+                _rearm()
                 r = break_oracle(cand, engine.execute(cand, replay=True))
             except Exception:
                 continue
@@ -142,13 +143,25 @@ def ddmin_list(items):
 # ---------------------------------------------------------------------------------------------
 _engine = None
 _minimised_raw = {}
+# wall-clock bound on ONE simulated run (or one minimisation candidate): a run normally takes milliseconds to seconds
+# (a codegen run: a minute); hitting the cap kills the worker, which is reported as a harness error, never as a pass
+RUN_WALL_CAP_S = 600
+_armed_at = [0.0]
+
+
+def _rearm():
+    """(Re-)start the wall-clock watchdog, at most every few seconds (micro-second runs must not pay for it)."""
+    now = REAL_PERF()
+    if now - _armed_at[0] > 5.0:
+        _armed_at[0] = now
+        faulthandler.dump_traceback_later(RUN_WALL_CAP_S, exit=True)
 
 
 def _worker_chunk(args):
     engine_name, prop, config, tier, batch_seed, indices, want_digests, do_min = args
     global _engine
     faulthandler.enable()
-    faulthandler.dump_traceback_later(600, exit=True)
+    faulthandler.dump_traceback_later(RUN_WALL_CAP_S, exit=True)
     try:
         if _engine is None or _engine.name != engine_name:
             _engine = load_engine(engine_name)
@@ -156,6 +169,7 @@ def _worker_chunk(args):
         out = {"n": 0, "ok": 0, "violations": [], "harness_errors": [], "stats": {}, "distinct": {},
                "digests": {}, "samples": [], "sim_time_s": 0.0, "steps": 0, "config": config}
         for i in indices:
+            _rearm()  # the cap is per run, not per chunk
             seed = derive_seed(batch_seed, engine_name, config, i)
             rng = random.Random(seed)
             rng.run_index = i  # engines may stratify small batches by index
